@@ -511,6 +511,10 @@ impl<T: Default + Reset + Traceable> Space<T> {
         // This ensures the newly allocated object won't be swept before
         // it's added to a guard's roots
         self.net_allocs += 1;
+        #[cfg(feature = "verif-hooks")]
+        if crate::verif_hooks::gc_threshold_override_due(self.net_allocs) {
+            self.collect();
+        }
         if self.gc_threshold > 0 && self.net_allocs >= self.gc_threshold {
             self.collect();
         }
